@@ -71,7 +71,8 @@ class GemRig:
             self._partial = self._partial[n:]
             self.frames.append(block)
             h = block.header
-            if h.s_type.value == 0 and h.require_response:
+            # S5F1 is sent without W-bit although set_alarm()/clear_alarm() wait for S5F2: the peer answers it anyway (as GemHostHandler does)
+            if h.s_type.value == 0 and (h.require_response or (h.stream, h.function) == (5, 1)):
                 key = (h.stream, h.function)
                 responder = self.responders.get(key)
                 reply = responder(block) if responder else None
